@@ -19,7 +19,7 @@ inductive CaseState where
   | flags
   | renkoNew (brick : String) (src : Nat)
   | renko (st : Renko)
-  | methodNew (name : String) (params : List String)
+  | methodNew (name : String) (params : List String) (t0 : Nat) (m0 : Rat)
   | method (name : String) (params : List String) (st : MState) (ctx : Ctx) (prevLeaves : List String)
       (lstepOnly : Bool) (spec : SpecSt)
 
@@ -103,7 +103,18 @@ def lstepCheck (ctx : Ctx) (st : MState) (prev : List String) (inp : List FZ)
 def stepMethod (d : Drv) (line : String) : Drv × Option String :=
   let (op, res, leaves) := split3 line
   match d.cs, op with
-  | .methodNew name params, "N" :: inToks =>
+  | .methodNew name params t0 m0, "S" :: stToks =>
+    -- C07 late positions: adopt the implementation's serialized state and continue with the per-step tie only
+    let x0 : List FZ := [default, default, default, default, default]
+    match mNew d.P name params x0 with
+    | .ok st0 =>
+      match mLoad st0 stToks with
+      | some st =>
+        let ctx0 : Ctx := if d.f32 then { P := d.P, n := st.winLen, eps := pow2 (-23), C := 64 } else { P := d.P, n := st.winLen }
+        ({ d with cs := .method name params st { ctx0 with t := t0, M := m0, Mv := m0 } stToks true default }, none)
+      | none => ({ d with cs := .skip }, some s!"NOTE case={d.caseId} no state loader for {name}")
+    | _ => ({ d with cs := .skip }, none)
+  | .methodNew name params t0 m0, "N" :: inToks =>
     match inToks.mapM fzOf with
     | none => ({ d with cs := .skip }, some s!"NOTE case={d.caseId} non-finite construction input skipped")
     | some inp =>
@@ -113,8 +124,10 @@ def stepMethod (d : Drv) (line : String) : Drv × Option String :=
       else match r with
         | .ok st =>
           let ctx0 : Ctx := if d.f32 then { P := d.P, n := st.winLen, eps := pow2 (-23), C := 64 } else { P := d.P, n := st.winLen }
-          let ctx : Ctx := bump ctx0 name inp
-          let (bad, _) := cmpAll (cmpLeaf ctx (ctx.allow (stateScale ctx st))) (mLeaves st) leaves "state after new"
+          let ctx1 : Ctx := bump ctx0 name inp
+          let ctx : Ctx := { ctx1 with t := t0, M := ratMax ctx1.M m0, Mv := ratMax ctx1.Mv m0 }
+          let (bad, _) := if leaves.isEmpty then (none, 0)
+            else cmpAll (cmpLeaf ctx (ctx.allow (stateScale ctx st))) (mLeaves st) leaves "state after new"
           let d := { d with ops := d.ops + 1, cs := .method name params st ctx leaves false (specInit name (inp.map (·.q))) }
           (match bad with
            | some m => mismatch d m line "constructor-state"
@@ -140,6 +153,9 @@ def stepMethod (d : Drv) (line : String) : Drv × Option String :=
       | .error _, ["P"] => ({ d with ops := d.ops + 1, cs := .skip }, none)
       | .error e, _ => mismatch d s!"model panics ({e}) but rust returned {unwords res}" line "panic"
       | .ok _, ["P"] => mismatch d "rust panicked, model does not" line "panic"
+      | .ok (_, st'), ["?"] =>
+        let (_, spec') := specStep name params spec (inp.map (·.q))
+        ({ d with cs := .method name params st' ctx leaves false spec' }, none)
       | .ok (outs, st'), _ =>
         let (sv, spec') := specStep name params spec (inp.map (·.q))
         let mv := outExact (outs.headD .exempt)
@@ -184,7 +200,10 @@ def step (d : Drv) (line : String) : Drv × Option String :=
       | "candle", _ => CaseState.candle
       | "flags", _ => CaseState.flags
       | "renko", [b, s] => CaseState.renkoNew b s.toNat!
-      | "method", name :: ps => CaseState.methodNew name ps
+      | "method", name :: ps =>
+        let t0 := ((ps.find? (·.startsWith "t0=")).map fun t => (t.drop 3).toString.toNat!).getD 0
+        let m0 := ((ps.find? (·.startsWith "M=")).bind fun t => parseRat (t.drop 2).toString).getD 0
+        CaseState.methodNew name (ps.filter fun t => !(t.startsWith "t0=") && !(t.startsWith "M=")) t0 m0
       | _, _ => CaseState.idle
     ({ d with cs := cs, caseId := id, comp := comp, sub := _params.headD "", cases := d.cases + 1, caseBad := false },
       if comp == "window" || comp == "method" || comp == "action" || comp == "candle" || comp == "renko" || comp == "flags" then none else some s!"UNKNOWN-COMPONENT case={id} comp={comp}")
@@ -193,7 +212,7 @@ def step (d : Drv) (line : String) : Drv × Option String :=
     match d.cs with
     | .idle => (d, none)
     | .skip => (d, none)
-    | .methodNew _ _ => stepMethod d line
+    | .methodNew _ _ _ _ => stepMethod d line
     | .method _ _ _ _ _ _ _ => stepMethod d line
     | .renkoNew brick src =>
       let parts := (line.splitOn ";").map words
